@@ -30,12 +30,16 @@ type Expr interface{ isExpr() }
 
 type LitAccount struct{ Name string }
 type LitAsset struct{ Name string }
-type LitNumber struct{ V *big.Int }
+type LitNumber struct {
+	V   *big.Int
+	Pad int // leading zeros in the text (decimal all the same)
+}
 type LitString struct{ S string }
 type LitPortion struct{ Text string }
 type LitMonetary struct {
 	Asset  Expr
 	Amount *big.Int
+	Pad    int // leading zeros in the text of the amount
 }
 type VarRef struct{ Name string }
 type BinOp struct {
@@ -232,13 +236,13 @@ func ExprString(e Expr) string {
 	case LitAsset:
 		return x.Name
 	case LitNumber:
-		return x.V.String()
+		return strings.Repeat("0", x.Pad) + x.V.String()
 	case LitString:
 		return `"` + x.S + `"`
 	case LitPortion:
 		return x.Text
 	case LitMonetary:
-		return "[" + ExprString(x.Asset) + " " + x.Amount.String() + "]"
+		return "[" + ExprString(x.Asset) + " " + strings.Repeat("0", x.Pad) + x.Amount.String() + "]"
 	case VarRef:
 		return "$" + x.Name
 	case BinOp:
